@@ -1,6 +1,6 @@
 (** Property C17 — Whitespace hygiene of the output (output stage; chunk-text invariants are contracts). *)
 From Coq Require Import List ZArith Bool.
-From UV Require Import Model.Render Proofs.RenderProofs.
+From UV Require Import Model.Render Proofs.RenderProofs Proofs.RenderTabs.
 Import ListNotations.
 Local Open Scope Z_scope.
 
@@ -35,3 +35,17 @@ Theorem C17_column_padding_is_buffered : forall o s c,
   out s' = out s /\ did_newline s' = false.
 Proof. exact output_to_column_spaces. Qed.
 Print Assumptions C17_column_padding_is_buffered.
+
+(** indentation with tabs (indent_with_tabs = 2): the leading white space of a line is a run of tabs followed by fewer
+    than one tab stop of spaces - never a space before a tab - and ends exactly in the chunk's column *)
+Theorem C17_tabs_then_spaces : forall o, 1 <= output_tab_size o -> forall prev c s,
+  indent_with_tabs o = 2 -> preproc c = false ->
+  quiet s -> column s = 1 -> spaces s = 0 -> did_newline s = true ->
+  1 <= col c -> Forall (plainc) (text c) -> is_string_multi c = false ->
+  (is_pp_define c && force_tab_after_define o) = false -> in_preproc_at_output o = false ->
+  let s' := render_other o prev c s in
+  exists m k : nat,
+    all_out s' = rev (map Ch (text c)) ++ repeat (Ch 32) k ++ repeat (Ch 9) m ++ out s
+    /\ (Z.of_nat k < output_tab_size o) /\ column s' = col c + Z.of_nat (length (text c)).
+Proof. exact first_chunk_on_line_tabs. Qed.
+Print Assumptions C17_tabs_then_spaces.
